@@ -73,6 +73,11 @@ def step (st : St) (op impl : List String) : St × String × String :=
     if (parseStreamTok t).isSome then
       (st, janusExpected, if impl.isEmpty then "na" else if joinToks impl = janusExpected then "ok" else "violated:janus-close-leaves-objects")
     else (st, "bad-op", "na")
+  | ["janustimeout", t] =>
+    if (parseStreamTok t).isSome then
+      (st, janusTimeoutExpected, if impl.isEmpty then "na" else if joinToks impl = janusTimeoutExpected then "ok"
+        else "violated:janus-create-timeout-leaves-objects")
+    else (st, "bad-op", "na")
   | _ =>
   match parseOp st op with
   | none => (st, "bad-op", "na")
